@@ -23,9 +23,10 @@
 (* Model-shaped (drift) clauses                                            *)
 (*   LeafOrderStable, ExactShape (tree = DecTreeOps!Build of the list),    *)
 (*   ChosenFirstStable (first accepted in stable order)                    *)
-(* A ChosenMostConstrained / SameOutcome failure is tagged "EndianAtBuild" *)
-(* when the tree was built for the other fetch order and the transcribed   *)
-(* walk over the DUMPED tree predicts exactly what the real code did.      *)
+(* A failure is tagged "/EndianAtBuild" when the tree is a correct index    *)
+(* for the fetch order endian() reported at import but not for the one of  *)
+(* the call (Routing), resp. when the transcribed walk over the DUMPED     *)
+(* tree with the call's key predicts exactly what the real code did.       *)
 (***************************************************************************)
 EXTENDS DecTreeOps, TLC, Json, IOUtils
 
@@ -41,11 +42,12 @@ Table(tr) == [i \in 1..Len(tr.specs) |->
 RECURSIVE TreeOf(_, _)
 TreeOf(nodes, n) ==
   LET nd == nodes[n]
-      K(x) == CHOOSE k \in 1..Len(nd.kids) : ToSet(nd.kids[k].key) = x
+      ks == [k \in 1..Len(nd.kids) |-> ToSet(nd.kids[k].key)]
   IN IF nd.leaf THEN Leaf(nd.specs)
-     ELSE Node(ToSet(nd.f), [x \in {ToSet(nd.kids[k].key) : k \in 1..Len(nd.kids)} |-> TreeOf(nodes, nd.kids[K(x)].node)])
+     ELSE Node(ToSet(nd.f), [x \in {ks[k] : k \in 1..Len(ks)} |->
+                               TreeOf(nodes, nd.kids[CHOOSE k \in 1..Len(ks) : ks[k] = x].node)])
 
-PB(tr) == [E |-> tr.Ebuild, maxlen |-> tr.maxlen, leafmax |-> 5, U |-> 8]
+PBE(tr, e) == [E |-> e, maxlen |-> tr.maxlen, leafmax |-> 5, U |-> 8]
 PC(tr) == [E |-> tr.E, maxlen |-> tr.callmaxlen, leafmax |-> 5, U |-> 8]
 
 Init == /\ tid \in 1..Len(Traces)
@@ -56,12 +58,20 @@ Init == /\ tid \in 1..Len(Traces)
         /\ done = FALSE
 
 (* ---- structural ---- *)
-TreeProp == IF ~PartitionAll(S, T) THEN "Partition"
-            ELSE IF ~Routing(S, T, PB(Tr)) THEN "Routing"
-            ELSE IF ~LeafOrderW(S, T, PB(Tr)) THEN "LeafOrder"
-            ELSE "ok"
-TreeDrift == IF ~LeafOrderStable(S, T) THEN "LeafOrderStable"
-             ELSE IF T # Build(S, [i \in 1..Len(S) |-> i], PB(Tr), {}) THEN "ExactShape"
+(* the tree must be laid out for the fetch order of the call (E); if it is not, but is a correct index *)
+(* for the fetch order endian() reported at import (Ebuild), the failure is the EndianAtBuild deviation *)
+TreePropE(e) == LET L == LeavesOf(T, <<>>) IN
+                IF ~PartitionL(S, L) THEN "Partition"
+                ELSE IF ~RoutingL(S, L, PBE(Tr, e)) THEN "Routing"
+                ELSE IF ~LeafOrderWL(S, L, PBE(Tr, e)) THEN "LeafOrder"
+                ELSE "ok"
+TreeProp == LET c == TreePropE(Tr.E) IN
+            IF c = "ok" THEN "ok"
+            ELSE IF Tr.E # Tr.Ebuild /\ TreePropE(Tr.Ebuild) = "ok" THEN c \o "/EndianAtBuild"
+            ELSE c
+TreeDrift == LET e == IF TreePropE(Tr.E) = "ok" THEN Tr.E ELSE Tr.Ebuild IN
+             IF ~LeafOrderStable(S, T) THEN "LeafOrderStable"
+             ELSE IF T # Build(S, [i \in 1..Len(S) |-> i], PBE(Tr, e), {}) THEN "ExactShape"
              ELSE "ok"
 
 (* ---- dynamic ---- *)
